@@ -62,6 +62,8 @@ struct Scenario {
     retry: Vec<u64>,
     #[serde(default)]
     decode: Vec<u8>,
+    #[serde(default)]
+    txid0: u16,
     steps: Vec<Step>,
 }
 
@@ -257,19 +259,23 @@ struct Shared {
 }
 
 async fn run_scenario(sc: &Scenario, sink: &Sink) {
+    if sc.mode == "task" {
+        return run_task_scenario(sc, sink).await;
+    }
     let ctx = Ctx {
         sink: sink.clone(),
         t0: tokio::time::Instant::now(),
     };
     sink.emit(json!({"e":"cfg","id":sc.id,"mode":sc.mode,"framing":sc.framing,"queue":sc.queue,
-        "max_timeouts":sc.max_timeouts,"retry":sc.retry}));
+        "max_timeouts":sc.max_timeouts,"retry":sc.retry,"txid0":sc.txid0}));
     let framing = if sc.framing == "rtu" { Framing::Rtu } else { Framing::Tcp };
-    let (channel, session) = ClientSession::new(
+    let (channel, mut session) = ClientSession::new(
         framing,
         sc.queue,
         decode_level(&sc.decode),
         NonZeroUsize::new(sc.max_timeouts),
     );
+    session.set_next_tx_id(sc.txid0);
     let mut channel = Some(channel);
     let polls = Arc::new(AtomicU64::new(0));
     let shared = Arc::new(Shared { last_tx: Mutex::new(None) });
@@ -441,6 +447,227 @@ async fn run_scenario(sc: &Scenario, sink: &Sink) {
     sink.emit(json!({"e":"cmd","kind":"abort"}));
     task.abort();
     drop(parked);
+    let _ = settle(sink, std::slice::from_ref(&polls)).await;
+    drop(channel);
+    let _ = settle(sink, std::slice::from_ref(&polls)).await;
+    sink.emit(json!({"e":"q"}));
+}
+
+
+// ------------------------------------------------------------------ mode "task": the whole TCP channel task
+struct RecListener {
+    ctx: Ctx,
+}
+
+impl Listener<ClientState> for RecListener {
+    fn update(&mut self, value: ClientState) -> MaybeAsync<()> {
+        let (state, d) = match value {
+            ClientState::Disabled => ("Disabled", 0),
+            ClientState::Connecting => ("Connecting", 0),
+            ClientState::Connected => ("Connected", 0),
+            ClientState::WaitAfterFailedConnect(d) => ("WaitAfterFailedConnect", d.as_millis() as u64),
+            ClientState::WaitAfterDisconnect(d) => ("WaitAfterDisconnect", d.as_millis() as u64),
+            ClientState::Shutdown => ("Shutdown", 0),
+        };
+        self.ctx
+            .sink
+            .emit(json!({"e":"listener","state":state,"d":d,"t":self.ctx.now_ms()}));
+        MaybeAsync::ready(())
+    }
+}
+
+type ConnResult = std::io::Result<Box<dyn rodbus::verif::VerifIo>>;
+
+struct HConnector {
+    ctx: Ctx,
+    pending: Arc<Mutex<Option<tokio::sync::oneshot::Sender<ConnResult>>>>,
+}
+
+impl rodbus::verif::Connector for HConnector {
+    fn connect(&self) -> std::pin::Pin<Box<dyn std::future::Future<Output = ConnResult> + Send + '_>> {
+        self.ctx.sink.emit(json!({"e":"attempt","t":self.ctx.now_ms()}));
+        let (tx, rx) = tokio::sync::oneshot::channel();
+        *self.pending.lock().unwrap() = Some(tx);
+        Box::pin(async move {
+            match rx.await {
+                Ok(r) => r,
+                Err(_) => Err(std::io::Error::from(std::io::ErrorKind::ConnectionAborted)),
+            }
+        })
+    }
+}
+
+async fn run_task_scenario(sc: &Scenario, sink: &Sink) {
+    let ctx = Ctx {
+        sink: sink.clone(),
+        t0: tokio::time::Instant::now(),
+    };
+    sink.emit(json!({"e":"cfg","id":sc.id,"mode":sc.mode,"framing":sc.framing,"queue":sc.queue,
+        "max_timeouts":sc.max_timeouts,"retry":sc.retry,"txid0":0}));
+    let pending = Arc::new(Mutex::new(None));
+    let connector = Arc::new(HConnector {
+        ctx: ctx.clone(),
+        pending: pending.clone(),
+    });
+    let options = ClientOptions::default()
+        .max_queued_requests(sc.queue)
+        .decode_level(decode_level(&sc.decode))
+        .max_response_timeouts(NonZeroUsize::new(sc.max_timeouts));
+    let retry = doubling_retry_strategy(
+        Duration::from_millis(sc.retry[0]),
+        Duration::from_millis(sc.retry[1]),
+    );
+    let (channel, task) = rodbus::verif::tcp_client_task(
+        connector,
+        retry,
+        Box::new(RecListener { ctx: ctx.clone() }),
+        options,
+    );
+    let mut channel = Some(channel);
+    let polls = Arc::new(AtomicU64::new(0));
+    let task = tokio::spawn(PollCounted::new(task.run(), polls.clone()));
+    let mut ioh: Option<IoHandle> = None;
+    let mut last_tx: Option<u16> = None;
+    let mut outbox: Vec<u8> = Vec::new();
+    // the task starts by itself
+    if !settle(sink, std::slice::from_ref(&polls)).await {
+        sink.emit(json!({"e":"stuck","why":"task never idle after start"}));
+        return;
+    }
+    sink.emit(json!({"e":"q"}));
+
+    for st in &sc.steps {
+        match st.op.as_str() {
+            "submit" => {
+                let ch = match channel.as_ref() {
+                    Some(c) => c.clone(),
+                    None => continue,
+                };
+                sink.emit(json!({"e":"submit","r":st.r,"style":st.style,"fc":st.fc,"unit":st.unit,"start":st.start,
+                    "count": if st.fc == 15 || st.fc == 16 { st.values.len() as u32 } else if st.fc == 5 || st.fc == 6 { 1 } else { st.count },
+                    "values":st.values,"timeout":st.timeout}));
+                if st.style == "callback" {
+                    tokio::spawn(submit_callback(ctx.clone(), ch, st.clone()));
+                } else {
+                    tokio::spawn(submit_future(ctx.clone(), ch, st.clone()));
+                }
+            }
+            "reply" | "peer" | "deliver" => {
+                let h = match ioh.as_ref() {
+                    Some(h) if !h.is_dropped() => h.clone(),
+                    _ => continue,
+                };
+                let bytes = if st.op == "reply" {
+                    for f in h.take_tx() {
+                        if f.len() >= 2 {
+                            last_tx = Some(((f[0] as u16) << 8) | f[1] as u16);
+                        }
+                    }
+                    let tx = (last_tx.unwrap_or(0) as i64 + st.txrel).rem_euclid(65536) as u16;
+                    let len = (st.pdu.len() + 1) as u16;
+                    let mut b = vec![(tx >> 8) as u8, tx as u8, 0, 0, (len >> 8) as u8, len as u8, st.unit];
+                    b.extend_from_slice(&st.pdu);
+                    if st.kind == "hold" {
+                        outbox.extend_from_slice(&b);
+                        continue;
+                    }
+                    b
+                } else if st.op == "deliver" {
+                    let n = if st.d == 0 { outbox.len() } else { std::cmp::min(st.d as usize, outbox.len()) };
+                    if n == 0 {
+                        continue;
+                    }
+                    outbox.drain(..n).collect()
+                } else {
+                    st.bytes.clone()
+                };
+                sink.emit(json!({"e":"peer","bytes":bytes_json(&bytes)}));
+                h.push(&bytes);
+            }
+            "tick" => {
+                sink.emit(json!({"e":"tick","d":st.d}));
+                tokio::time::advance(Duration::from_millis(st.d)).await;
+            }
+            "eof" | "rerr" => {
+                let h = match ioh.as_ref() {
+                    Some(h) if !h.is_dropped() => h.clone(),
+                    _ => continue,
+                };
+                sink.emit(json!({"e":"eof"}));
+                if st.op == "eof" {
+                    h.eof()
+                } else {
+                    h.read_error(io_kind(&st.kind))
+                }
+            }
+            "werr" => {
+                let h = match ioh.as_ref() {
+                    Some(h) if !h.is_dropped() => h.clone(),
+                    _ => continue,
+                };
+                sink.emit(json!({"e":"werr"}));
+                h.write_error(io_kind(&st.kind));
+            }
+            "connector" => {
+                let tx = match pending.lock().unwrap().take() {
+                    Some(tx) if !tx.is_closed() => tx,
+                    _ => continue,
+                };
+                sink.emit(json!({"e":"connector","res":st.res}));
+                if st.res == "ok" {
+                    let (io, h) = script_io(sink.clone());
+                    h.record_tx(true);
+                    outbox.clear();
+                    ioh = Some(h);
+                    let _ = tx.send(Ok(Box::new(io)));
+                } else {
+                    let _ = tx.send(Err(std::io::Error::from(std::io::ErrorKind::ConnectionRefused)));
+                }
+            }
+            "cmd" => match st.kind.as_str() {
+                "enable" | "disable" | "decode" | "shutdown" => {
+                    let ch = match channel.as_ref() {
+                        Some(c) => c.clone(),
+                        None => continue,
+                    };
+                    sink.emit(json!({"e":"cmd","kind":st.kind}));
+                    let kind = st.kind.clone();
+                    let level = decode_level(&st.level);
+                    tokio::spawn(async move {
+                        let _ = match kind.as_str() {
+                            "enable" => ch.enable().await,
+                            "disable" => ch.disable().await,
+                            "decode" => ch.set_decode_level(level).await,
+                            _ => ch.shutdown().await,
+                        };
+                    });
+                }
+                "drop" => {
+                    sink.emit(json!({"e":"cmd","kind":"drop"}));
+                    channel = None;
+                }
+                "abort" => {
+                    sink.emit(json!({"e":"cmd","kind":"abort"}));
+                    task.abort();
+                }
+                _ => continue,
+            },
+            _ => continue,
+        }
+        if !settle(sink, std::slice::from_ref(&polls)).await {
+            sink.emit(json!({"e":"stuck","why":"client task keeps being polled without becoming idle"}));
+            task.abort();
+            return;
+        }
+        if task.is_finished() {
+            if let Some(msg) = take_panic() {
+                sink.emit(json!({"e":"panic","msg":msg}));
+            }
+        }
+        sink.emit(json!({"e":"q"}));
+    }
+    sink.emit(json!({"e":"cmd","kind":"abort"}));
+    task.abort();
     let _ = settle(sink, std::slice::from_ref(&polls)).await;
     drop(channel);
     let _ = settle(sink, std::slice::from_ref(&polls)).await;
